@@ -31,6 +31,17 @@ theorem C07_result (M : Merger ρ σ ο ε) (T : Nat) (ev : EventNo) (pcs : List
     | error e => rw [hr] at ho; cases ho
     | ok a => exact relay_oks M T ev M.init pcs a hr
 
+/-- **Intact contributions.** Said differently: the reply is the one the request would have
+    produced had the fatally failing plugins not been in the list at all. -/
+theorem C07_as_if_absent (M : Merger ρ σ ο ε) (T : Nat) (ev : EventNo) (pcs : List (Plugin × Call ρ))
+    (hv : hasVeto T ev pcs = false) :
+    (request M T ev pcs).1 = (request M T ev (pcs.filter fun pc => !failsFatally T ev pc)).1 := by
+  have h1 := (C07_result M T ev pcs hv).1
+  have hv' : hasVeto T ev (pcs.filter fun pc => !failsFatally T ev pc) = false := by
+    rw [hasVeto_filter_fatal]; exact hv
+  have h2 := (C07_result M T ev _ hv').1
+  rw [h1, h2, okResponses_filter_fatal]
+
 section examples
 def pA : Plugin := ⟨0, str "10", str "a", 0x1fff#32, false⟩
 def pB : Plugin := ⟨1, str "20", str "b", 0x1fff#32, false⟩
